@@ -357,18 +357,19 @@ where
     #[inline(never)]
     fn init(&mut self) -> Result<bool, Error> {
         if let Some((line_num, pos, byte)) = self.first_byte()? {
+            // `self.position` holds the blank lines / bytes that first_byte()
+            // already removed from the buffer; `line_num` and `pos` are
+            // relative to the current buffer contents
+            let line = self.position.line as usize + line_num;
             if byte == b'>' {
                 self.buf_pos.start = pos;
-                self.position.byte = pos as u64;
-                self.position.line = line_num as u64;
+                self.position.byte += pos as u64;
+                self.position.line = line as u64;
                 self.search_pos = pos + 1;
                 return Ok(true);
             } else {
                 self.state = State::Finished;
-                return Err(Error::InvalidStart {
-                    line: line_num,
-                    found: byte,
-                });
+                return Err(Error::InvalidStart { line, found: byte });
             }
         }
         self.state = State::Finished;
@@ -376,9 +377,8 @@ where
     }
 
     fn first_byte(&mut self) -> Result<Option<(usize, usize, u8)>, Error> {
-        let mut line_num = 0;
-
         while fill_buf(&mut self.buf_reader)? > 0 {
+            let mut line_num = 0;
             let mut pos = 0;
             let mut last_line_len = 0;
             for line in self.get_buf().split(|b| *b == b'\n') {
@@ -390,8 +390,12 @@ where
                 last_line_len = line.len();
             }
             // If an orphan '\r' is found at the end of the buffer,
-            // we need to move it to the start and re-search the line
-            self.buf_reader.consume(pos - 1 - last_line_len);
+            // we need to move it to the start and re-search the line.
+            // The last line is thus searched (and counted) again after refilling.
+            let consumed = pos - 1 - last_line_len;
+            self.position.line += line_num as u64 - 1;
+            self.position.byte += consumed as u64;
+            self.buf_reader.consume(consumed);
             self.buf_reader.make_room();
         }
         Ok(None)
